@@ -589,7 +589,7 @@ class Ctx:
             try:
                 why = pred(x)
             except RecursionError:
-                raise
+                why = 'executable statement raised RecursionError (no answer at all for this input)'
             except Exception as e:  # noqa
                 why = 'executable statement raised %s: %s' % (type(e).__name__, e)
             if why:
